@@ -189,7 +189,24 @@ func init() {
 			}
 		}
 		s.echo(fmt.Sprintf("%s now=%s", strings.Join(tk, " "), now))
-		s.obs("cliquerycap path=%s q=%s", gotPath, hexStr(gotQuery))
+		// what the request means, not how it is spelled: the parameters the server will read (decoded, sorted
+		// by name; the order of parameters in the query is nothing the handler depends on)
+		canon := "unparsable:" + hexStr(gotQuery)
+		if v, err := url.ParseQuery(gotQuery); err == nil {
+			var keys []string
+			for k := range v {
+				keys = append(keys, k)
+			}
+			sort.Strings(keys)
+			var parts []string
+			for _, k := range keys {
+				for _, x := range v[k] {
+					parts = append(parts, hexStr(k)+"="+hexStr(x))
+				}
+			}
+			canon = strings.Join(parts, "&")
+		}
+		s.obs("cliquerycap path=%s q=%s", gotPath, canon)
 	}
 }
 
